@@ -274,7 +274,8 @@ def run_check(mod, tier="quick", batch_seed=0, budget_s=None, n_procs=None, max_
         # prefer the cheapest failing scenario as the starting point
         mbudget = 60 if tier == "quick" else 300
         mbudget = float(os.environ.get("VERIF_MINIMISE_S", mbudget))
-        scn_min, out_min, rounds = minimise(mod, scns[k], o, budget_s=mbudget, n_procs=n_procs)
+        start_scn = o.get("replay_scenario") or scns[k]
+        scn_min, out_min, rounds = minimise(mod, start_scn, o, budget_s=mbudget, n_procs=n_procs)
         path = write_replay(prop, scn_min, out_min, batch_seed, fingerprint, rounds)
         # confirm in a fresh interpreter
         cp = subprocess.run(
@@ -344,9 +345,14 @@ def build_evidence(mod, tier, batch_seed, outcomes, scns, harness, reported, kno
     knob_hist = {}
     for p in getattr(mod, "PROBES", []):
         probes[p] = 0
+    n_eval = 0
     for k, o in outcomes.items():
+        n_eval += int(o.get("evaluations", 1))
         if o.get("nontrivial") and o.get("status") != "uninformative":
-            digests.add(o.get("digest") or f"#{k}")
+            if o.get("distinct_digests"):
+                digests.update(o["distinct_digests"])
+            else:
+                digests.add(o.get("digest") or f"#{k}")
         for p, v in (o.get("probes") or {}).items():
             probes[p] += int(v)
         for p, v in (o.get("faults") or {}).items():
@@ -374,7 +380,8 @@ def build_evidence(mod, tier, batch_seed, outcomes, scns, harness, reported, kno
                             "seed": scns[k].get("seed")})
     informative = n - status.get("uninformative", 0)
     cov = {
-        "evaluations": n,
+        "evaluations": n_eval,
+        "scenarios": n,
         "distinct_nontrivial": len(digests),
         "rule": mod.RULE,
         "samples": samples,
@@ -382,7 +389,7 @@ def build_evidence(mod, tier, batch_seed, outcomes, scns, harness, reported, kno
         "exhaustive_subspaces": getattr(mod, "EXHAUSTIVE_SUBSPACES", []),
         "uninformative": status.get("uninformative", 0),
         "informative_ratio": round(informative / n, 4) if n else 0.0,
-        "runs_per_hour": round(n / wall * 3600) if wall > 0 else 0,
+        "runs_per_hour": round(n_eval / wall * 3600) if wall > 0 else 0,
         "procs": n_procs,
         "seeds": {"VERIF_SEED": batch_seed, "first": scns[min(scns)].get("seed") if scns else None,
                   "count": len(scns)},
